@@ -111,9 +111,7 @@ def sensitivity(names, n_runs, with_tests=False):
             print(f'sensitivity {m["name"]}: {status} by {caught} of {m["props"]} in {time.time() - t0:.0f}s  -- {m["what"]}')
         finally:
             shutil.rmtree(scratch, ignore_errors=True)
-    # restore evidence files of the unchanged tree? they were rewritten by the
-    # mutant runs: say so loudly
-    print('note: evidence/*.json of the properties above were rewritten by runs against mutants; re-run the checks on /repo before committing evidence')
+    # (runs against another tree than /repo write their evidence to evidence_scratch/)
     return missed
 
 
